@@ -72,7 +72,7 @@ let () =
       (try
         let args = List.map z_of_token toks in
         if limit > 0 then ignore (Unix.alarm limit);
-        let res = (try let r = run args in ignore (Unix.alarm 0); Some r
+        let res = (try let r = run_model args in ignore (Unix.alarm 0); Some r
                    with Timeout -> None) in
         (match res with
          | Some r -> print_string (String.concat " " (List.map token_of_z r))
